@@ -65,35 +65,28 @@ Theorem C12b_grpc_get_found : forall k hex_ok size g s d e,
 Proof. exact grpc_get_found_inv. Qed.
 Print Assumptions C12b_grpc_get_found.
 
-(* the full statement "for every backend answer the Get returns error, miss or found" is FALSE of the
-   code as it is (finding): FetchBlob answering OK without a blob_digest makes Get (and Contains)
-   dereference nil *)
-Theorem C12b_grpc_get_never_panics_refuted : ~ grpc_get_never_panics.
-Proof. exact grpc_get_never_panics_refuted. Qed.
-Print Assumptions C12b_grpc_get_never_panics_refuted.
-
-(* exactly that answer, and only for a CAS entry of unknown size *)
-Theorem C12b_grpc_get_panic_iff : forall k hex_ok size g site,
-  grpc_get k hex_ok size g = PPanic site <->
-  k = CAS /\ size < 0 /\ hex_ok = true /\ g_fb g = FBResp 0 None /\ site = site_get.
-Proof. exact grpc_get_panic_iff. Qed.
-Print Assumptions C12b_grpc_get_panic_iff.
-
-(* proved part: when OK answers of FetchBlob carry a digest, every answer gives error, miss or found,
-   and every fault (rpc error, NotFound, non-OK status, failing Read call, hash that is not hex) an
-   error or a miss *)
-Theorem C12b_grpc_get_total_partial : forall k hex_ok size g,
-  fb_has_digest g ->
+(* for EVERY backend answer the Get returns error, miss or found ... *)
+Theorem C12b_grpc_get_total : forall k hex_ok size g,
   grpc_get k hex_ok size g = PErr \/ grpc_get k hex_ok size g = PMiss \/
   exists s d e, grpc_get k hex_ok size g = PFound s d e.
 Proof. exact grpc_get_total. Qed.
-Print Assumptions C12b_grpc_get_total_partial.
+Print Assumptions C12b_grpc_get_total.
 
-Theorem C12b_grpc_get_faults_partial : forall k hex_ok size g,
-  fb_has_digest g -> grpc_fault k hex_ok size g ->
+(* ... in particular an OK answer of FetchBlob without a blob_digest (for a CAS entry of unknown
+   size; formerly a nil dereference, finding F33) is an error for Get and "no" for Contains ... *)
+Theorem C12b_grpc_get_never_panics : forall hex_ok size g st,
+  size < 0 -> g_fb g = FBResp st None ->
+  grpc_get CAS hex_ok size g = PErr /\ grpc_contains CAS hex_ok size g = HasNo.
+Proof. exact grpc_no_digest_is_error. Qed.
+Print Assumptions C12b_grpc_get_never_panics.
+
+(* ... and every fault (rpc error, NotFound, non-OK status, OK without digest, failing Read call,
+   hash that is not hex, any error of GetActionResult) gives an error or a miss *)
+Theorem C12b_grpc_get_faults : forall k hex_ok size g,
+  grpc_fault k hex_ok size g ->
   grpc_get k hex_ok size g = PErr \/ grpc_get k hex_ok size g = PMiss.
 Proof. exact grpc_get_fault_degrades. Qed.
-Print Assumptions C12b_grpc_get_faults_partial.
+Print Assumptions C12b_grpc_get_faults.
 
 (* a miss is reported only for AC/RAW on NotFound; an absent CAS blob surfaces as an error *)
 Theorem C12b_grpc_get_miss : forall k hex_ok size g,
@@ -130,17 +123,22 @@ Print Assumptions C12b_stream_reader_error.
 
 (* ================= the bridge to the disk-level theorems ================= *)
 
-(* every returning outcome of a real proxy is one of the backend behaviours of Model/Disk.v *)
+(* every outcome of a real proxy is one of the backend behaviours of Model/Disk.v: errors are BErr,
+   misses BMiss, a found object keeps its announced size, delivered length and stream verdict *)
 Theorem C12b_outcome_is_bget : forall ob o,
-  (exists b, to_bget ob o = Some b) \/ exists site, o = PPanic site.
-Proof. exact to_bget_total. Qed.
+  match o with
+  | PErr => to_bget ob o = BErr
+  | PMiss => to_bget ob o = BMiss
+  | PFound s d e => to_bget ob o = BFound s (o_full ob) d e 1 (o_logical ob)
+  end.
+Proof. exact to_bget_spec. Qed.
 Print Assumptions C12b_outcome_is_bget.
 
 (* disk.Cache + httpproxy: a hit for a locally absent key means the backend answered 200 with a
    usable announcement of exactly the reported size, the body ended without error, and the disk layer
    validated what arrived *)
-Theorem C12b_http_hit_validated : forall c d k hash sz off zstd rp ob b rnd d' s cid flen,
-  to_bget ob (http_get (c_zstd c && kind_eqb k CAS) rp) = Some b ->
+Theorem C12b_http_hit_validated : forall c d k hash sz off zstd rp ob rnd d' s cid flen,
+  let b := to_bget ob (http_get (c_zstd c && kind_eqb k CAS) rp) in
   peek (lookup_key k hash) (lru d) = None ->
   exec c d (RGet k hash sz off zstd b rnd) = (d', Some (GetHit s cid flen)) ->
   get_shortcut k hash sz \/
@@ -151,17 +149,17 @@ Theorem C12b_http_hit_validated : forall c d k hash sz off zstd rp ob b rnd d' s
 Proof. exact http_disk_hit_validated. Qed.
 Print Assumptions C12b_http_hit_validated.
 
-Theorem C12b_http_fault_never_hit : forall c d k hash sz off zstd rp ob b rnd d' s cid flen,
+Theorem C12b_http_fault_never_hit : forall c d k hash sz off zstd rp ob rnd d' s cid flen,
   http_fault (c_zstd c && kind_eqb k CAS) rp ->
-  to_bget ob (http_get (c_zstd c && kind_eqb k CAS) rp) = Some b ->
   peek (lookup_key k hash) (lru d) = None -> ~ get_shortcut k hash sz ->
-  exec c d (RGet k hash sz off zstd b rnd) <> (d', Some (GetHit s cid flen)).
+  exec c d (RGet k hash sz off zstd (to_bget ob (http_get (c_zstd c && kind_eqb k CAS) rp)) rnd)
+    <> (d', Some (GetHit s cid flen)).
 Proof. exact http_fault_never_hit. Qed.
 Print Assumptions C12b_http_fault_never_hit.
 
 (* disk.Cache + grpcproxy *)
-Theorem C12b_grpc_hit_validated : forall c d k hash hex_ok sz off zstd g ob b rnd d' s cid flen,
-  to_bget ob (grpc_get k hex_ok sz g) = Some b ->
+Theorem C12b_grpc_hit_validated : forall c d k hash hex_ok sz off zstd g ob rnd d' s cid flen,
+  let b := to_bget ob (grpc_get k hex_ok sz g) in
   peek (lookup_key k hash) (lru d) = None ->
   exec c d (RGet k hash sz off zstd b rnd) = (d', Some (GetHit s cid flen)) ->
   get_shortcut k hash sz \/
@@ -174,19 +172,17 @@ Theorem C12b_grpc_hit_validated : forall c d k hash hex_ok sz off zstd g ob b rn
 Proof. exact grpc_disk_hit_validated. Qed.
 Print Assumptions C12b_grpc_hit_validated.
 
-Theorem C12b_grpc_fault_never_hit : forall c d k hash hex_ok sz off zstd g ob b rnd d' s cid flen,
+Theorem C12b_grpc_fault_never_hit : forall c d k hash hex_ok sz off zstd g ob rnd d' s cid flen,
   grpc_fault k hex_ok sz g ->
-  to_bget ob (grpc_get k hex_ok sz g) = Some b ->
   peek (lookup_key k hash) (lru d) = None -> ~ get_shortcut k hash sz ->
-  exec c d (RGet k hash sz off zstd b rnd) <> (d', Some (GetHit s cid flen)).
+  exec c d (RGet k hash sz off zstd (to_bget ob (grpc_get k hex_ok sz g)) rnd) <> (d', Some (GetHit s cid flen)).
 Proof. exact grpc_fault_never_hit. Qed.
 Print Assumptions C12b_grpc_fault_never_hit.
 
 (* a stream that ends with an error — at any byte offset, also after the last byte — never gives a hit *)
-Theorem C12b_stream_error_never_hit : forall c d k hash sz off zstd ob size delivered b rnd d' s cid flen,
-  to_bget ob (PFound size delivered true) = Some b ->
+Theorem C12b_stream_error_never_hit : forall c d k hash sz off zstd ob size delivered rnd d' s cid flen,
   peek (lookup_key k hash) (lru d) = None -> ~ get_shortcut k hash sz ->
-  exec c d (RGet k hash sz off zstd b rnd) <> (d', Some (GetHit s cid flen)).
+  exec c d (RGet k hash sz off zstd (to_bget ob (PFound size delivered true)) rnd) <> (d', Some (GetHit s cid flen)).
 Proof. exact stream_error_never_hit. Qed.
 Print Assumptions C12b_stream_error_never_hit.
 
@@ -310,7 +306,7 @@ Print Assumptions C12b_queue_quiescent.
 (* HTTP: a healthy 200 is found with the announced size; 204, 206, 301, 500 and a transport error are
    errors, 404 a miss; a missing or unparsable Content-Length is an error; in zstd mode a body of 15
    bytes or a header size of 0 is an error.  gRPC: NotFound is a miss for AC and an error for an
-   unknown-size CAS entry; an OK FetchBlob without digest panics.  A stream of three messages read
+   unknown-size CAS entry; an OK FetchBlob without digest is an error, with digest 7 the entry is found.  A stream of three messages read
    with a 4-byte buffer arrives complete; when the stream then
    fails, the two bytes still buffered are dropped with the error.  Uploads of 4 MiB + 1 bytes with 2 MiB chunks: three chunks, the largest
    request 2097299 bytes.  A queue of capacity 2 with one worker refuses the 4th and 5th of five
@@ -329,8 +325,9 @@ Example C12b_example :
   http_fault false (HReply (st 500)) /\ http_fault true (HReply (mkHResp 200 CLAbsent (-1) 15 false 77)) /\
   (let g := mkG (ACErr 5) (FBResp 5 None) (FMResp 1) (mkRd false [3; 4] false) in
    grpc_get AC true (-1) g = PMiss /\ grpc_get CAS true (-1) g = PErr /\ grpc_get CAS true 7 g = PFound 7 7 false /\
-   grpc_contains CAS true 7 g = HasNo /\ fb_has_digest g /\ grpc_fault CAS true (-1) g) /\
-  grpc_get CAS true (-1) (mkG (ACErr 5) (FBResp 0 None) FMErr (mkRd false [] false)) = PPanic site_get /\
+   grpc_contains CAS true 7 g = HasNo /\ grpc_fault CAS true (-1) g) /\
+  grpc_get CAS true (-1) (mkG (ACErr 5) (FBResp 0 None) FMErr (mkRd false [] false)) = PErr /\
+  grpc_get CAS true (-1) (mkG (ACErr 5) (FBResp 0 (Some 7)) FMErr (mkRd false [3; 4] false)) = PFound 7 7 false /\
   copy_all false 4 20 (mkR [] [[1; 2; 3]; []; [4; 5; 6; 7; 8; 9]]) [] = Some ([1; 2; 3; 4; 5; 6; 7; 8; 9], false) /\
   copy_all true 4 20 (mkR [] [[1; 2; 3]; [4; 5; 6; 7; 8; 9]]) [] = Some ([1; 2; 3; 4; 5; 6; 7], true) /\
   sends_of (grpc_upload_cas false None (file_reads 4194305 (buf_size 4194305 2097152)))
@@ -347,6 +344,5 @@ Proof.
   - intros n Hn. cbn in Hn. repeat (destruct Hn as [<-|Hn]; [vm_compute; reflexivity|]). contradiction.
   - vm_compute. left. discriminate.
   - vm_compute. right. left. reflexivity.
-  - vm_compute. discriminate.
-  - vm_compute. right. split; [reflexivity|]. right. right. exists 5, None. split; [reflexivity|discriminate].
+  - vm_compute. right. split; [reflexivity|]. right. right. left. exists 5, None. split; [reflexivity|discriminate].
 Qed.
